@@ -1,7 +1,8 @@
 (* C14 - skip_brute and all_lower are pure restrictions.  Theorems only. *)
 From Coq Require Import List Bool NArith.
 From Coq Require Import QArith Sorting.Permutation.
-From Pcfg Require Import Expand ExpandCorr Loader ProbAlg Next NextSpec NextProofs QProb QSum QStream.
+From Coq Require Import Floats.
+From Pcfg Require Import Expand ExpandCorr Loader LoaderCorr F64 F64Div ProbAlg Next NextSpec NextProofs QProb QSum QStream.
 From PcfgGen Require Import Consts_gen.
 
 (* side conditions on facts re-extracted from the source on every run *)
@@ -66,6 +67,22 @@ Theorem C14_stream_Q_no_ties :
   map ipt out' = map ipt (filter (keep_item rs keepb) out).
 Proof. exact C14_stream_Q_no_ties. Qed.
 
+(* binary64: no hypothesis about the division is left - x / 1.0 = x for every
+   finite double (div_one_F), so the loader that the correspondence runs obeys the
+   statement for every grammar.txt whose probabilities are finite and >= 0 *)
+Theorem C14_bases_with_markov_binary64 :
+  forall rw (ls : list (str * PrimFloat.float)) pm l0,
+  Forall (fun l => okbF (snd l) = true) ls ->
+  scan_M ls = Some pm -> PrimFloat.eqb (1 - pm) 0 = false ->
+  load_bases_F rw false ls = Some l0 ->
+  load_bases_F rw true ls =
+    Some (map (fun b => ((fst b / (1 - pm))%float, snd b)) (filter (fun b => negb (has_M (snd b))) l0)).
+Proof. exact load_bases_F_skip_with_M. Qed.
+
+Theorem C14_division_by_one_is_exact : forall x : PrimFloat.float, okF x -> (x / 1)%float = x.
+Proof. exact div_one_F. Qed.
+
 Print Assumptions C14_bases_with_markov.
+Print Assumptions C14_bases_with_markov_binary64.
 Print Assumptions C14_stream_Q.
 Print Assumptions C14_bases_without_markov.
